@@ -223,3 +223,27 @@ def touch_binning(rng: random.Random, binning, p: float = 0.5) -> bool:
         except Exception:
             pass
     return True
+
+
+def narrow_weights(rng: random.Random, wts, p: float = 0.25):
+    """The same weights as an array of a narrow element type in which every single weight is exactly representable
+    (int8 .. int32, uint8, uint16, float32, float16): sums and squares of the weights are numbers, not elements of that type.
+    Returns (array or None, dtype name or None); None when not chosen / not representable."""
+    if wts is None or len(wts) == 0 or rng.random() >= p:
+        return None, None
+    a = np.asarray(wts)
+    if a.dtype.kind in "iub" or (a.dtype.kind == "f" and np.all(a == np.floor(a))):
+        cands = [dt for dt in ("int8", "uint8", "int16", "uint16", "int32") if a.min() >= np.iinfo(dt).min and a.max() <= np.iinfo(dt).max]
+        if a.dtype.kind == "f":
+            cands = []  # float-valued integers stay floats (an integer histogram would be a different case)
+    else:
+        cands = []
+    if a.dtype.kind == "f":
+        for dt in ("float32", "float16"):
+            with np.errstate(all="ignore"):
+                if np.array_equal(a.astype(dt).astype(float), a.astype(float)):
+                    cands.append(dt)
+    if not cands:
+        return None, None
+    dt = rng.choice(cands)
+    return a.astype(dt), dt
